@@ -289,6 +289,8 @@ m('hashjoin-no-predicate-recheck', ['C11'], 'lib/execution/executors/hash_join_e
 m('lockexclusive-membership-instead-of-sole-holder', ['C16', 'C05'], LK, '''			if !(arr == nil || len(arr) == 0 || (len(arr) == 1 && arr[0] == txn.GetTransactionID())) {''', '''			if !(arr == nil || len(arr) == 0 || isContainTxnID(arr, txn.GetTransactionID())) {''', ['C16-R4 [LockExclusive:no-exclusive-grant-with-several-shared-holders]'])
 m('lockupgrade-any-holder-count', ['C16'], LK, '''			if len(txnIds) != 1 {''', '''			if len(txnIds) == 0 {''', ['C16-R4 [LockUpgrade:no-exclusive-grant-with-several-shared-holders]'])
 m('update-fixup-skips-marked-rows', ['C15', 'C03'], TP, '''		if tp.GetTupleSize(uint32(ii)) > 0 && tupleOffsetI < tupleOffset+tupleSize {''', '''		if !IsDeleted(tp.GetTupleSize(uint32(ii))) && tupleOffsetI < tupleOffset+tupleSize {''', ['C15-R4 [TablePage.UpdateTuple:fixup-covers-delete-marked-rows]'])
+m('rangescan-emits-own-deleted-row', ['C04'], 'lib/execution/executors/range_scan_with_index_executor.go', '''			tpl = nil
+			continue''', '''			continue''', ['C04-R7 [RangeScan.Next:own-deleted-row-not-emitted]'])
 # drop the one that needs a helper that does not exist
 M = [x for x in M if x['id'] != 'insert-executor-unlocks-early']
 os.chdir(os.path.dirname(os.path.abspath(__file__)) + '/..')
